@@ -115,6 +115,8 @@ type Report struct {
 	knownSeen   map[string]int64
 	maxSamples  int
 	replay      *replayReq
+	crash       string   // worker: panic caught by Guard
+	workerFail  []string // workers that died without a report; judged in Finish after the others were merged
 }
 
 // NewReport parses flags and starts a report for property id.
@@ -162,7 +164,11 @@ func NewReport(id, level, rule string) *Report {
 		profStop = func() { pprof.StopCPUProfile(); f.Close() }
 	}
 	var kf knownFile
-	if data, err := os.ReadFile(filepath.Join(VerifDir, "known_findings.json")); err == nil {
+	kfDir := VerifDir // the committed file next to the checks, also when output goes elsewhere (VERIF_OUT)
+	if src := os.Getenv("VERIF_SRC"); src != "" {
+		kfDir = src
+	}
+	if data, err := os.ReadFile(filepath.Join(kfDir, "known_findings.json")); err == nil {
 		if err := json.Unmarshal(data, &kf); err != nil {
 			fmt.Fprintf(os.Stderr, "known_findings.json: %v\n", err)
 			os.Exit(2)
@@ -320,10 +326,11 @@ type partial struct {
 	Capped     string                 `json:"capped"`
 	Exhaustive bool                   `json:"exhaustive"`
 	Assume     []string               `json:"assume"`
+	Crash      string                 `json:"crash,omitempty"`
 }
 
 func (r *Report) emitPartial() {
-	p := partial{Evals: r.evals.Load(), Classes: r.classes, Samples: r.samples, Known: r.knownSeen, Ints: map[string]int64{}, Other: map[string]interface{}{}, Capped: r.capNote, Exhaustive: r.exhaustive, Assume: r.Assumptions}
+	p := partial{Crash: r.crash, Evals: r.evals.Load(), Classes: r.classes, Samples: r.samples, Known: r.knownSeen, Ints: map[string]int64{}, Other: map[string]interface{}{}, Capped: r.capNote, Exhaustive: r.exhaustive, Assume: r.Assumptions}
 	for _, sig := range r.vioOrder {
 		p.Vios = append(p.Vios, r.vios[sig])
 	}
@@ -384,7 +391,8 @@ func (r *Report) RunWorkers(n int, extraArgs ...string) {
 				line = line[:j]
 			}
 			if err := json.Unmarshal(line, &p); err != nil {
-				r.Broken("worker %d: bad partial: %v", x.k, err)
+				r.workerFail = append(r.workerFail, fmt.Sprintf("worker %d: bad partial: %v", x.k, err))
+				continue
 			}
 			found = true
 		}
@@ -393,9 +401,13 @@ func (r *Report) RunWorkers(n int, extraArgs ...string) {
 			if len(tail) > 2000 {
 				tail = tail[len(tail)-2000:]
 			}
-			r.Broken("worker %d produced no report (err=%v): %s", x.k, x.err, tail)
+			r.workerFail = append(r.workerFail, fmt.Sprintf("worker %d produced no report (err=%v): %s", x.k, x.err, tail))
+			continue
 		}
 		r.mu.Lock()
+		if p.Crash != "" {
+			r.workerFail = append(r.workerFail, fmt.Sprintf("worker %d crashed after reporting what it had found: %s", x.k, p.Crash))
+		}
 		r.evals.Add(p.Evals)
 		for k, v := range p.Classes {
 			r.classes[k] += v
@@ -448,6 +460,22 @@ func (r *Report) RunWorkers(n int, extraArgs ...string) {
 	sort.Strings(r.vioOrder)
 }
 
+// Guard runs f and, in a worker, turns a panic into a crash note of the partial report so that what the
+// worker had found before is not lost; the parent then reports the run as broken unless a violation was found.
+func (r *Report) Guard(f func()) {
+	defer func() {
+		if v := recover(); v != nil {
+			if !r.IsWorker() {
+				panic(v)
+			}
+			r.crash = fmt.Sprint(v)
+			r.exhaustive = false
+			r.Finish()
+		}
+	}()
+	f()
+}
+
 // Finish writes the evidence file, prints KNOWN-FINDING / VIOLATION lines and exits.
 func (r *Report) Finish() {
 	profStop()
@@ -457,6 +485,12 @@ func (r *Report) Finish() {
 		r.emitPartial()
 	}
 	wall := time.Since(r.start).Seconds()
+	if len(r.workerFail) > 0 {
+		r.exhaustive = false
+		if r.capNote == "" {
+			r.capNote = fmt.Sprintf("%d worker(s) failed", len(r.workerFail))
+		}
+	}
 	if r.replay != nil {
 		// a replay neither rewrites the evidence nor the replay files
 		v := r.vios[r.replay.Sig]
@@ -580,8 +614,18 @@ func (r *Report) Finish() {
 	for _, v := range vlist {
 		fmt.Printf("VIOLATION property=%s replay=%s signature=%q count=%d :: %s\n", r.ID, v.Replay, v.Sig, v.Count, v.What)
 	}
+	for _, m := range r.workerFail {
+		if len(m) > 1500 {
+			m = m[:1500] + "..."
+		}
+		fmt.Printf("WORKER-FAILED property=%s %s\n", r.ID, m)
+	}
 	if len(vlist) > 0 {
 		os.Exit(1)
+	}
+	if len(r.workerFail) > 0 {
+		fmt.Printf("CHECK-BROKEN property=%s %d worker(s) failed\n", r.ID, len(r.workerFail))
+		os.Exit(2)
 	}
 	if r.evals.Load() == 0 {
 		fmt.Printf("CHECK-BROKEN property=%s no evaluations\n", r.ID)
